@@ -125,6 +125,21 @@ pub fn attacks(
     let pay = Value::Object(kbj.payload.clone());
     // c. re-signed by other keys / algorithms
     out.push(base("kb re-signed", "re-signed by an attacker key of the holder key's family".into(), with_kb(make_kb(&hdr, &pay, hk_alg, &issuer_enc(hk_alg, KeyId::Attacker)))));
+    // … naming its own key in the KB-JWT's header (`jwk`, `kid` copied from the confirmed key,
+    // `x5c`-less "key rotation" conveniences): only the key confirmed in the signed payload counts
+    {
+        let att_jwk_text = if hk_alg == Alg::EdDSA { crate::keys::ED_ATT_JWK } else { crate::keys::EC_ATT_JWK };
+        let mut att_jwk: Value = serde_json::from_str(att_jwk_text).unwrap();
+        if let Some(kid) = holder.jwk_value().and_then(|j| j.get("kid").cloned()) {
+            att_jwk["kid"] = kid.clone();
+        }
+        let mut h = hdr.clone();
+        h["jwk"] = att_jwk.clone();
+        if let Some(kid) = att_jwk.get("kid") {
+            h["kid"] = kid.clone();
+        }
+        out.push(base("kb re-signed", "re-signed by an attacker key that the KB-JWT header names as `jwk` (with the confirmed key's kid)".into(), with_kb(make_kb(&h, &pay, hk_alg, &issuer_enc(hk_alg, KeyId::Attacker)))));
+    }
     if issuer_alg != Alg::HS256 {
         let mut h = hdr.clone();
         h["alg"] = json!(issuer_alg.name());
